@@ -36,8 +36,21 @@ int main(int, char **)
     if (connects[a] != 1 || closes[a] != 0) replay_io::fail("CS1/CS2 successful connect: not exactly one connect event / a close"); }
   if (eng.getStats().sessionsCurrent != cur0) replay_io::fail("CF4 gauge changed by a failed connect");
   if (fds0 >= 0 && openFds() != fds0) replay_io::fail("CF6 descriptor count changed across a failed connect: " + std::to_string(fds0) + " -> " + std::to_string(openFds()));
+  // connectViaListener early exits (viaDo head): unknown listener, unresolvable host, no address of the listener's family - one close each, nothing inserted
+  const auto cur1 = eng.getStats().sessionsCurrent;
+  SessionId v1 = eng.connectViaListener(lr.value() + 1000, "127.0.0.1", 9).value();
+  SessionId v2 = eng.connectViaListener(lr.value(), "no-such-host.invalid", 9).value();
+  SessionId v3 = eng.connectViaListener(lr.value(), "::1", 9).value();
+  if (!wait([&] { return closes[v1] >= 1 && closes[v2] >= 1 && closes[v3] >= 1; })) replay_io::fail("VH2 a refused connectViaListener never got its close notification");
+  std::this_thread::sleep_for(200ms);
+  { std::lock_guard<std::mutex> g(mx);
+    for (SessionId v : {v1, v2, v3}) { if (closes[v] != 1) replay_io::fail("VH2 refused connectViaListener id " + std::to_string(v) + ": " + std::to_string(closes[v]) + " close notifications");
+      if (connects[v] != 0) replay_io::fail("VH6 connect event for a refused connectViaListener"); }
+    if (why[v1] != TransportError::Config || why[v2] != TransportError::Resolve || why[v3] != TransportError::Config) replay_io::fail("VH3/VH4 reasons of the three early exits"); }
+  if (eng.getStats().sessionsCurrent != cur1) replay_io::fail("VH5 gauge changed by refused connectViaListener calls");
+  printf("connectViaListener: unknown listener / unresolvable host / family mismatch: one close each (Config, Resolve, Config), nothing inserted\n");
   eng.stop();
-  { std::lock_guard<std::mutex> g(mx); if (closes[a] != 1 || closes[b] != 1) replay_io::fail("after stop(): not exactly one close per id"); }
+  { std::lock_guard<std::mutex> g(mx); if (closes[a] != 1 || closes[b] != 1 || closes[v1] != 1) replay_io::fail("after stop(): not exactly one close per id"); }
   replay_io::ok("connect: one connect event on success, exactly one close (Resolve) on failure, nothing inserted or leaked");
   return 0;
 }
